@@ -233,7 +233,7 @@ reg(C03("C03"))
 
 
 class C05(TreeCheck):
-    obligations = [("main", "L2CCfull", "parseFull_contain"), ("main", "L2Kind2", "parseBlocks_kinds"), ("main", "NoUnpFull", "C05_noUnparsed"),
+    obligations = [("main", "TieKinds", "tie_kinds"), ("main", "L2CCfull", "parseFull_contain"), ("main", "L2Kind2", "parseBlocks_kinds"), ("main", "NoUnpFull", "C05_noUnparsed"),
                    ("main", "Clos12full", "C12_closure"), ("main", "Rec16", "ordered_number_range"),
                    ("main", "GramBlocks", "parseBlocks_gramBlocks"), ("main", "GramBlocks", "parseFull_gramBlocks")]
     proj = staticmethod(proj_kinds)
@@ -251,11 +251,11 @@ reg(C05("C05"))
 
 
 class C13(TreeCheck):
-    obligations = [("main", "Rec16", "parseListMarker_sound"), ("main", "Rec17", "parseCodeFence_sound"), ("recog", "ATXProof", "parseATXHeading_correct"),
+    obligations = [("main", "ShapesCS", "parseCodeSpan_shape"), ("main", "ShapesA", "parseAutolink_shape"), ("main", "ShapesA", "parseCharacterEscape_shape"), ("main", "ShapesA", "parseHardLineBreakSpace_hard_iff"), ("main", "ShapesHT", "parseHTMLTag_shape"), ("main", "ShapesA", "parseDelimiterRun_shape"), ("main", "ShapesComp3", "parseInlines_codespan_shapes_partial"), ("main", "Shapes", "hardbreak_line_shape"), ("main", "Shapes", "codespan_shapes_statement_false"), ("main", "Rec16", "parseListMarker_sound"), ("main", "Rec17", "parseCodeFence_sound"), ("recog", "ATXProof", "parseATXHeading_correct"),
                    ("main", "Rec15", "parseSetext_correct")]
     proj = staticmethod(proj_kindspans)
     what = "(kind, span) of every node"
-    assumptions = ["partial: the recognizer theorems give the shape at creation for list markers, fences, ATX and setext lines; the other shapes are decided by the correspondence plus the shape oracle"]
+    assumptions = ["partial: scanner-level shape theorems for every kind of leaf-like construct (parseCodeSpan_shape: equal backtick runs; parseAutolink_shape, parseHTMLTag_shape: '<...>'; parseCharacterEscape_shape: '&...;'; parseHardLineBreakSpace_hard_iff; parseDelimiterRun_shape: copies of one of * or _) and, end to end through the whole inline parser, every CodeSpanKind node of parseInlines has the code-span shape for containers satisfying the executable condition bikOK (parseInlines_codespan_shapes_partial; without a condition the statement is false for arbitrary entry lists, witness proved); the recognizer theorems give the shape at creation for list markers, fences, ATX and setext lines; transport of the remaining shapes through the parser is decided by the correspondence, the shape oracle and the formal statement evaluated on the implementation's trees"]
 
 
 reg(C13("C13"))
@@ -331,7 +331,7 @@ reg(C07("C07"))
 # ---- C10 -----------------------------------------------------------------------------------------
 class C10(Check):
     rule = DOC_RULE + "; each document under one of the 30 configurations (3 soft-break behaviours x IgnoreRaw x {nil, GFM, always, never, name set}) in rotation"
-    obligations = [("main", "RenderWalkProof", "C10_appendBlock"), ("main", "WalkG", "walk_is_spec"), ("main", "C10misc", "render_refdef_empty"), ("main", "C10misc", "render_silent_inline"),
+    obligations = [("main", "TieRender", "tie_render"), ("main", "RenderWalkProof", "C10_appendBlock"), ("main", "WalkG", "walk_is_spec"), ("main", "C10misc", "render_refdef_empty"), ("main", "C10misc", "render_silent_inline"),
                    ("main", "Entry", "renderDoc_renderRoots")]
     assumptions = ["the independent reading of the tree is the structural renderer renderB of the model (one clause per kind, accessor models); C10_appendBlock proves that Walk with the renderer's callbacks equals it; the run applies it to the implementation's own tree dump",
                    "determinism, tree/Source untouched, block joining and empty output for definitions are observed on the implementation by the oracle (pure model cannot exhibit mutation)"]
@@ -456,7 +456,7 @@ def emph_strings(seed, tier):
 
 class C11(Check):
     rule = "all strings up to length 5 (quick) / 7 (thorough) over {*, _, a, space, '.', e-acute}, plus random strings of 6-45 symbols adding a non-ASCII punctuation mark and a no-break space; non-trivial = contains a delimiter run"
-    obligations = [("emph", "EmphProof", "process_emphasis_opt_sound"), ("main", "PEProof", "processEmphasis_opt_sound")]
+    obligations = [("main", "TieInline", "tie_inline"), ("emph", "EmphProof", "process_emphasis_opt_sound"), ("main", "PEProof", "processEmphasis_opt_sound")]
     assumptions = ["proved: the openers_bottom search bounds never change the result of the procedure (abstract delimiter lists of any length, and on the transcription of processEmphasis with its tree surgery); flanking flags and the tokeniser are tied by the correspondence; the oracle is an independent Go transcription of the spec procedure without the bound"]
 
     def jobs(self, seed, tier):
@@ -541,7 +541,7 @@ def order_docs(seed, n):
 
 class C12(Check):
     rule = "label pairs over atoms with multi-character folds, final sigma, Kelvin sign, dotted I, no-break and em spaces, tabs/line endings, escaped brackets, in four placements (expected match computed by an independent normaliser: whitespace collapse + str.casefold); competing definitions in random orders and containers; the general document stream for the closure clause"
-    obligations = [("main", "Clos12full", "C12_closure"), ("main", "Refs12", "extract_is_fold"), ("main", "Refs12", "first_wins_first"), ("main", "Refs12", "first_wins_stable"),
+    obligations = [("main", "TieInline", "tie_inline"), ("main", "Clos12full", "C12_closure"), ("main", "Refs12", "extract_is_fold"), ("main", "Refs12", "first_wins_first"), ("main", "Refs12", "first_wins_stable"),
                    ("main", "Clos12", "parseInlines_closed"),
                    ("main", "LabelNorm", "label_norm_single"), ("main", "LabelNorm", "collapse_idempotent"), ("main", "LabelNorm", "trim_collapse_idempotent"),
                    ("main", "LabelNormAdj", "label_norm_adjacent")]
@@ -689,7 +689,7 @@ def schedules(seed, ds):
 
 class C08(Check):
     rule = DOC_RULE + "; each document under a read schedule (1-byte reads, empty reads, random caps, cuts after every CR / inside multi-byte characters and NUL runs, data returned with the final error or not) and, for 40 %, a fault after k bytes with one of two error values; plus inputs straddling the 8 KiB chunk size"
-    obligations = [("stream", "ReaderProof", "readline_sim"), ("stream", "BPProof", "next_block_sim"), ("stream", "C08", "C08_stream_eq"), ("stream", "C08", "C08_fault"),
+    obligations = [("main", "TieStream", "tie_stream"), ("stream", "ReaderProof", "readline_sim"), ("stream", "BPProof", "next_block_sim"), ("stream", "C08", "C08_stream_eq"), ("stream", "C08", "C08_fault"),
                    ("stream", "ReaderProof", "read_spec"),
                    ("main", "StreamRd", "readlineS_sim"), ("main", "StreamSim", "nextBlock_sim"), ("main", "StreamFuel", "nextBlock_adequate"),
                    ("main", "StreamEq", "parseStream_eq_partial"), ("main", "StreamEq", "parseStream_fault"), ("main", "StreamEq", "parseStream_eq_from_consume")]
@@ -765,15 +765,15 @@ def strings_rand(seed, alpha, L, n):
 
 class C15(Check):
     rule = "all 256 byte values (classifier table, exhaustive); all lines up to length 5 (quick) / 7 (thorough) over the alphabet each recognizer distinguishes, with each line-ending style, plus random lines to length 30 (with 9- and 10-digit numbers, 6 and 7 hashes); URI and e-mail strings exhaustively to length 4 over 8 symbols plus random strings over 18-26 symbols; non-trivial = non-empty"
-    obligations = [("recog", "TB", "parseThematicBreak_correct"), ("recog", "TB", "parseThematicBreak_none"), ("recog", "ATXProof", "parseATXHeading_correct"), ("main", "Rec15", "parseSetext_correct"),
+    obligations = [("main", "AtxMain", "atx_impl_exact"), ("main", "AtxMain", "atx_C15"), ("main", "AtxMain", "atx_C15_fine"), ("main", "AtxMain", "atx_C15_fine_converse"), ("main", "AtxMain", "atx_D22_refuted"), ("recog", "TB", "parseThematicBreak_correct"), ("recog", "TB", "parseThematicBreak_none"), ("recog", "ATXProof", "parseATXHeading_correct"), ("main", "Rec15", "parseSetext_correct"),
                    ("main", "Rec15", "punct_spec"), ("main", "Rec15", "hex_spec"), ("main", "Rec15", "control_spec"), ("main", "Rec15", "ws_spec"), ("main", "Rec15", "letter_spec"),
                    ("main", "Rec16", "parseListMarker_sound"), ("main", "Rec16", "parseListMarker_complete"), ("main", "Rec16", "parseListMarker_none"), ("main", "Rec16", "ordered_number_range"),
                    ("main", "Rec17", "parseCodeFence_sound"), ("main", "Rec17", "parseCodeFence_complete"), ("main", "Rec17", "parseCodeFence_none"),
                    ("main", "Rec18", "email_iff"), ("main", "Rec18", "isEmailAddress_iff"),
                    ("main", "Rec19", "normalizeURI_alphabet"), ("main", "Rec19", "normalizeURI_idempotent"), ("main", "Rec19", "normalizeURI_fix"),
-                   ("main", "TieGen", "tie_classifiers"), ("main", "TieGen", "tie_constants")]
-    assumptions = ["every clause has its theorem on the model (recognizers = declarative definitions on every line; classifiers over all 256 bytes by computation; e-mail grammar; URI alphabet, well-formed escapes, idempotence); the byte classifiers' bodies and the constants are regenerated from /repo's source on every run (TieGen), the recognizers are tied by the correspondence through the verif hook",
-                   "parseATXHeading_correct is proved on the recognizer without the escaped-trailing-space rule; the implementation's rule (known finding D22) is modelled in main/Recog.v and excluded from the oracle by signature"]
+                   ("main", "TieClassify", "tie_classifiers"), ("main", "TieBlocks", "tie_blocks"), ("main", "TieRender", "tie_render")]
+    assumptions = ["every clause has its theorem on the model (recognizers = declarative definitions on every line; classifiers over all 256 bytes by computation; e-mail grammar; URI alphabet, well-formed escapes, idempotence); the byte classifiers' bodies and the constants are regenerated from /repo's source on every run (TieClassify, TieBlocks, TieRender), the recognizers are tied by the correspondence through the verif hook",
+                   "the ATX recognizer of the main model is characterised exactly, for every line: atx_impl_exact (= the CommonMark definition with the implementation's extra rule that a blank after an odd run of backslashes is kept), atx_C15_fine / atx_C15_fine_converse (it agrees with the CommonMark definition on precisely the lines outside the class escTail), atx_D22_refuted (the finding D22 as a theorem, witness '# foo\\ '); parseATXHeading_correct of coq/recog is the same statement for the recognizer without the extra rule"]
 
     def jobs(self, seed, tier):
         lines = [(l, "") for l in recog_lines(seed, tier)]
@@ -873,8 +873,8 @@ reg(C18("C18"))
 class C06(Check):
     level = "other"
     rule = "abstract documents (paragraphs, ATX/setext headings, thematic breaks, fenced/indented code, block quotes, tight/loose bullet and ordered lists nested to depth 3, HTML blocks, definitions; text, escapes, entities, emphasis, code spans, inline/reference links, images, autolinks, raw tags, hard and soft breaks) serialised with random choices of marker characters, fence lengths, indentation widths, LF/CRLF and escaping style; expected HTML from the generator's own denotation; distinct by serialisation"
-    obligations = [("main", "C07final", "C07_final"), ("main", "RenderWalkProof", "C10_appendBlock"), ("recog", "ATXProof", "parseATXHeading_correct"), ("main", "Rec17", "parseCodeFence_sound")]
-    assumptions = ["the whole-pipeline statement (render (parse (serialize d)) = denote d) is not proved; supporting theorems (recognizers = definitions, renderer = structural reading) are machine-checked; the property is decided by the oracle comparing the implementation's HTML with the generator's denotation, and by the model/implementation correspondence on the same serialisations",
+    obligations = [("main", "SliceText", "C06_escaped_text"), ("main", "SliceCode", "C06_code_verbatim"), ("main", "SliceText", "C06_escaped_text_any_cfg"), ("main", "SliceCode", "C06_code_verbatim_any_cfg"), ("main", "C07final", "C07_final"), ("main", "RenderWalkProof", "C10_appendBlock"), ("recog", "ATXProof", "parseATXHeading_correct"), ("main", "Rec17", "parseCodeFence_sound")]
+    assumptions = ["the two clauses the property singles out are proved on the model for inputs of any length: C06_escaped_text (a one-line paragraph of letters, digits, single spaces and backslash-escaped ASCII punctuation renders to exactly that text, HTML-escaped) and C06_code_verbatim (a backtick-fenced block whose fence is longer than any backtick run at the start of a line renders its lines verbatim, HTML-escaped), for every configuration without tag filter", "the whole-pipeline statement (render (parse (serialize d)) = denote d) is not proved; supporting theorems (recognizers = definitions, renderer = structural reading) are machine-checked; the property is decided by the oracle comparing the implementation's HTML with the generator's denotation, and by the model/implementation correspondence on the same serialisations",
                    "the abstract-document generator and its denotation (lib/docgen.py) are trusted to follow the CommonMark 0.30 text"]
 
     def jobs(self, seed, tier):
